@@ -801,6 +801,7 @@ impl Check for AllSchedules {
         if !complete && viol.is_none() {
             obs.label("enumeration-capped");
         }
+        obs.weight(count as u64);
         obs.sample(serde_json::json!({"max": c.max, "programs": c.programs, "schedules": count, "nontrivial_schedules": nt}));
         SCHEDULES_RUN.fetch_add(count, std::sync::atomic::Ordering::Relaxed);
         match viol {
